@@ -58,6 +58,10 @@ class _SlowFor:
         return 0.0
 
 
+def narrow_pulse(t):
+    return 12.0 if 0.50 <= t < 0.56 else 0.0
+
+
 def nm_rate(t, amp):
     return 0.5 - amp * np.sin(2.5 * t)
 
@@ -374,6 +378,32 @@ def relational(rep, tier, rng):
         raise
     except Exception as e:      # noqa
         viol.append(("improved-mixed-parallel:raises", f"{type(e).__name__}: {e}"[:200]))
+    # ---- integrator options travel with the solver into the worker processes: a narrow pulse that only a bounded step
+    #      (`max_step`) resolves gives the same trajectories serially and in workers, for every integration method
+    for meth in (("vern7", "vern9", "adams") if tier == "quick" else ("vern7", "vern9", "adams", "dop853", "lsoda", "bdf")):
+        try:
+            Hp = qutip.QobjEvo([0.2 * qutip.sigmaz(), [qutip.sigmax(), narrow_pulse]])
+            op_ = {"progress_bar": "", "keep_runs_results": True, "store_states": True, "method": meth, "max_step": 0.01, "atol": 1e-8, "rtol": 1e-6, "nsteps": 100000}
+            tlp = [0.0, 0.4, 1.2]
+            seeds_p = SeedSequence(4321).spawn(4)
+            with core.time_limit(600):
+                rs = qutip.MCSolver(Hp, [0.5 * qutip.sigmam()], options=op_).run(qutip.basis(2, 1), tlp, ntraj=4, seeds=list(seeds_p))
+                rp = qutip.MCSolver(Hp, [0.5 * qutip.sigmam()], options=dict(op_, map="parallel", num_cpus=2)).run(qutip.basis(2, 1), tlp, ntraj=4, seeds=list(seeds_p))
+        except core.CaseTimeout:
+            raise
+        except Exception as e:      # noqa
+            if type(e).__name__ != "IntegratorException":
+                viol.append((f"options-in-workers:raises:{meth}", f"{type(e).__name__}: {e}"[:200]))
+            continue
+        rep.count("relational-options-in-workers")
+        ks = {seed_key(rs.seeds[j]): traj_sig(rs, j) for j in range(4)}
+        kp = {seed_key(rp.seeds[j]): traj_sig(rp, j) for j in range(4)}
+        for key in ks:
+            rep.evaluations += 1
+            d = same(ks[key], kp.get(key, {}), tol=1e-5) if key in kp else "seed missing"
+            if d:
+                viol.append((f"options-in-workers:{meth}", f"mcsolve with {meth} and max_step=0.01 on a Hamiltonian with a narrow pulse: the trajectory of a seed differs between the serial run and worker processes ({d})"))
+                break
     # ---- a returned result is a value: what the solver object does afterwards (other measurement settings, other runs)
     #      does not change it, and the later run is what a fresh solver with those settings gives
     for nm, het in (("sse", False), ("sme", False), ("sme", True)):
